@@ -2,8 +2,10 @@ package props
 
 import (
 	"fmt"
+	"sort"
 	"testing"
 
+	"github.com/openziti/foundation/v2/errorz"
 	"github.com/openziti/storage/boltz"
 	"pgregory.net/rapid"
 
@@ -87,7 +89,91 @@ func runC03(h kit.History) kit.Result {
 		}
 		everHeld[val][id] = true
 	}
-	st, err := kit.RunHistory(h, func(w *kit.World, m *kit.Model, i int, tx kit.TxSpec, out kit.TxOutcome) error {
+	// a change listener on the set index: told, inside the transaction, about every change of an entity's role set
+	type roleChange struct {
+		id       string
+		old, new []string
+	}
+	var changes []roleChange
+	var prev *kit.Model
+	vals := func(xs []boltz.FieldTypeAndValue) []string {
+		out := []string{}
+		for _, x := range xs {
+			out = append(out, string(x.Value))
+		}
+		sort.Strings(out)
+		return out
+	}
+	rolesOf := func(m *kit.Model, id string) []string {
+		out := []string{}
+		if m != nil {
+			if e, ok := m.Ents["things"][id]; ok {
+				out = append(out, e.Roles...)
+			}
+		}
+		sort.Strings(out)
+		return out
+	}
+	st, err := kit.RunHistorySetup(h, func(w *kit.World) {
+		w.SetIdx["things."+kit.FRoles].AddListener(func(_ boltz.MutateContext, rowId []byte, old []boltz.FieldTypeAndValue, new []boltz.FieldTypeAndValue, _ errorz.ErrorHolder) {
+			changes = append(changes, roleChange{string(rowId), vals(old), vals(new)})
+		})
+	}, func(w *kit.World, m *kit.Model, i int, tx kit.TxSpec, out kit.TxOutcome) error {
+		seen := changes
+		changes = nil
+		before := prev
+		prev = m.Clone()
+		if out.Committed && !tx.Batch {
+			// per entity the reported changes chain from the role set before the transaction to the one after it
+			// (a delete is not reported; Db.Batch may run the function twice)
+			chain := map[string][]roleChange{}
+			for _, ch := range seen {
+				chain[ch.id] = append(chain[ch.id], ch)
+			}
+			ids := map[string]bool{}
+			for id := range chain {
+				ids[id] = true
+			}
+			for id := range m.Ents["things"] {
+				ids[id] = true
+			}
+			for id := range ids {
+				was, is := rolesOf(before, id), rolesOf(m, id)
+				_, existsNow := m.Ents["things"][id]
+				evs := chain[id]
+				if len(evs) == 0 {
+					recreated := false
+					for _, op := range tx.Ops {
+						if op.ID == id && op.Kind == "delete" {
+							recreated = true
+						}
+					}
+					if existsNow && !recreated && fmt.Sprint(was) != fmt.Sprint(is) {
+						return fmt.Errorf("the role set of %s went from %q to %q and the set index's change listener was not told", id, was, is)
+					}
+					continue
+				}
+				for k := 0; k+1 < len(evs); k++ {
+					deleted := false
+					for _, op := range tx.Ops {
+						if op.ID == id && op.Kind == "delete" {
+							deleted = true
+						}
+					}
+					if !deleted && fmt.Sprint(evs[k].new) != fmt.Sprint(evs[k+1].old) {
+						return fmt.Errorf("set index change listener, entity %s: one report ends with %q, the next starts from %q", id, evs[k].new, evs[k+1].old)
+					}
+				}
+				if existsNow && fmt.Sprint(evs[len(evs)-1].new) != fmt.Sprint(is) {
+					return fmt.Errorf("set index change listener, entity %s: the last report says the roles are now %q, they are %q", id, evs[len(evs)-1].new, is)
+				}
+				for _, ev := range evs {
+					if fmt.Sprint(ev.old) == fmt.Sprint(ev.new) {
+						return fmt.Errorf("set index change listener, entity %s: told about a change from %q to %q", id, ev.old, ev.new)
+					}
+				}
+			}
+		}
 		if i%3 == 2 {
 			// index look-ups made inside a writing transaction (values held and values nobody holds) find what the
 			// model says and leave the indexes as they are
